@@ -7,6 +7,7 @@ use codespan_reporting::diagnostic::Diagnostic;
 use itertools::Itertools;
 use path_dedot::ParseDot;
 use std::cell::RefCell;
+use indexmap::IndexMap;
 use std::collections::HashMap;
 use std::fmt::{Binary, Debug, Display, Formatter, LowerHex};
 use std::path::PathBuf;
@@ -63,7 +64,8 @@ impl ParseTree {
 pub struct ParserInstance {
     shared_state: Arc<Mutex<State>>,
     pub current_file: Arc<File>,
-    pub to_import: Arc<RefCell<HashMap<PathBuf, Span>>>,
+    /// The files this file imports, in source order (so that repeated runs parse them in the same order)
+    pub to_import: Arc<RefCell<IndexMap<PathBuf, Span>>>,
 }
 
 impl ParserInstance {
@@ -71,7 +73,7 @@ impl ParserInstance {
         Self {
             shared_state: state,
             current_file,
-            to_import: Arc::new(RefCell::new(HashMap::new())),
+            to_import: Arc::new(RefCell::new(IndexMap::new())),
         }
     }
 
